@@ -20,5 +20,5 @@ func (w *World) ConfirmEpoch(shardID int, epoch uint32) {
 	if shardID < 0 || shardID >= len(w.shards) {
 		return
 	}
-	w.shards[shardID].notifier.confirm(epoch)
+	w.shards[shardID].notifier.confirm(epoch, 0)
 }
